@@ -213,6 +213,81 @@ fn symbolic(m: &mut Mon, f: &[f64], g: &[f64], class: &str) {
     m.sample(&format!("symbolic:{}", class), 1, || json!({"f_ends": f.iter().take(10).collect::<Vec<_>>(), "g_ends": g.iter().take(10).collect::<Vec<_>>()}));
 }
 
+/// Two consecutive calls whose concatenated breakpoint lists are identical but split differently between the
+/// operands (f = h[..s1], g = h[s1..], then f = h[..s2], g = h[s2..]).
+fn resplit(m: &mut Mon, r: &mut Rng) {
+    let n = r.usize(3, 12);
+    let h = gen_ends_any(r, n).0;
+    let s1 = r.usize(1, n - 1);
+    let mut s2 = r.usize(1, n - 1);
+    if s2 == s1 {
+        s2 = if s1 == 1 { 2 } else { s1 - 1 };
+    }
+    m.count("consecutive_calls_same_concatenation_other_split");
+    symbolic(m, &h[..s1], &h[s1..], "resplit");
+    symbolic(m, &h[..s2], &h[s2..], "resplit");
+}
+
+/// Operands whose pieces are themselves piecewise functions (`&Piecewise<T> + &Piecewise<T>` is the piece-level
+/// operator of `Piecewise<Piecewise<T>>`, so the merge re-enters itself).
+fn nested(m: &mut Mon, r: &mut Rng) {
+    let nf = r.usize(1, 5);
+    let fo = gen_ends_any(r, nf).0;
+    let go = gen_second(r, &fo).0;
+    let mk = |r: &mut Rng, outer: &[f64], left: bool| -> (Piecewise<Piecewise<Pair>>, Vec<Vec<f64>>) {
+        let inner: Vec<Vec<f64>> = outer.iter().map(|_| { let k = r.usize(1, 3); gen_ends_any(r, k).0 }).collect();
+        let pw = Piecewise {
+            segments: outer.iter().enumerate().map(|(i, e)| Segment {
+                end: *e,
+                poly: Piecewise { segments: inner[i].iter().enumerate().map(|(j, ie)| {
+                    let id = (i * 100 + j) as i32;
+                    Segment { end: *ie, poly: if left { Pair { l: id, r: -1, op: 0 } } else { Pair { l: -1, r: id, op: 0 } } }
+                }).collect() },
+            }).collect(),
+        };
+        (pw, inner)
+    };
+    let (pf, fi) = mk(r, &fo, true);
+    let (pg, gi) = mk(r, &go, false);
+    m.count("pairs_nested");
+    m.case(hash_bits(131, fo.iter().chain(go.iter()).chain(fi.iter().flatten()).chain(gi.iter().flatten()).map(|e| e.to_bits())));
+    for op in [b'+', b'-'] {
+        let opname = if op == b'+' { "add" } else { "sub" };
+        pair_budget(i64::MAX);
+        let res = match guard(|| if op == b'+' { &pf + &pg } else { &pf - &pg }) {
+            Err(p) => {
+                m.panic(&format!("{} panic (pieces that are piecewise functions)", opname), &p, || json!({"f": hxs(&fo), "g": hxs(&go)}));
+                continue;
+            }
+            Ok(res) => res,
+        };
+        let rends: Vec<f64> = res.segments.iter().map(|s| s.end).collect();
+        if !check_ends(m, opname, &fo, &go, &rends) {
+            continue;
+        }
+        let mut qs = union_queries(&fo, &go);
+        qs.extend(fi.iter().flatten().chain(gi.iter().flatten()).copied().filter(|x| !x.is_nan()));
+        for x in qs {
+            m.eval();
+            let (of, og) = (sel(&fo, x), sel(&go, x));
+            let want = ((of * 100 + sel(&fi[of], x)) as i32, (og * 100 + sel(&gi[og], x)) as i32);
+            let ip = &res.segments[sel(&rends, x)].poly;
+            let iends: Vec<f64> = ip.segments.iter().map(|s| s.end).collect();
+            if iends.is_empty() {
+                m.violation(&format!("{} result empty (pieces that are piecewise functions)", opname), || json!({"f": hxs(&fo), "g": hxs(&go)}));
+                break;
+            }
+            let piece = ip.segments[sel(&iends, x)].poly;
+            if (piece.l, piece.r) != want || piece.op != op {
+                m.violation(&format!("{} combines pieces that direct evaluation does not select (pieces that are piecewise functions)", opname), || {
+                    json!({"f": hxs(&fo), "g": hxs(&go), "x": hx(x), "expected": [want.0, want.1], "observed": [piece.l, piece.r]})
+                });
+                break;
+            }
+        }
+    }
+}
+
 fn gen_quartic(r: &mut Rng) -> IntOfLogPoly4 {
     let mut v = [0.0; 6];
     for x in v.iter_mut() {
@@ -313,6 +388,8 @@ pub fn canaries(m: &mut Mon) {
 }
 
 pub const FLOORS: &[&str] = &[
+    "consecutive_calls_same_concatenation_other_split",
+    "pairs_nested",
     "add:both_advance",
     "add:left_advances",
     "add:right_advances",
@@ -396,6 +473,12 @@ pub fn run(a: &Args, m: &mut Mon) {
             symbolic(m, &f, &g, class);
         } else {
             symbolic(m, &g, &f, class);
+        }
+        if k % 8 == 1 {
+            resplit(m, &mut r);
+        }
+        if k % 8 == 5 {
+            nested(m, &mut r);
         }
         if k % 4 == 0 {
             // real pieces: positive finite ends as in the library's use case, plus whatever f,g are
